@@ -4355,6 +4355,9 @@ CS104_Slave_start(CS104_Slave self)
 #if ((CONFIG_USE_THREADS == 1) && (CONFIG_USE_SEMAPHORES == 1))
     if (isRunning(self) == false)
     {
+        /* a server that was run in threadless mode before is now stopped by the threaded branch of CS104_Slave_stop */
+        self->isThreadlessMode = false;
+
 #if (CONFIG_USE_SEMAPHORES == 1)
         Semaphore_wait(self->stateLock);
 #endif
